@@ -109,6 +109,10 @@ def gen_plan(seed, tier):
                             (1, nports + 1)])
       st["inp"] = r.wpick([(3, W.OFPP_NONE), (1, r.randint(1, nports))])
       st["buffer"] = r.wpick([(5, None), (2, r.pick([1, 2, 99, 0x7fffffff]))])
+      if st["buffer"] is not None and r.chance(0.15):
+        # request near the 16-bit length limit (a very long action list):
+        # the error about it must still arrive
+        st["nact"] = (r.pick([65535, 65524, 65523, 65000, 32768]) - 16) // 8
       if st["buffer"] is not None:
         # the model does not track buffers, so whether this one errors is
         # open; a unique xid keeps the optional error attributable
@@ -318,9 +322,12 @@ def _drive(sim, world, plan, known, hit_known):
           req=raw, kf="C13-flowmod-badcmd-nameerror")
     elif op == "packet_out":
       data = _frame(0) if st["buffer"] is None else b""
+      if st.get("nact"):
+        sim.probes["huge_refused_packet_out"] += 1
       bid = W.NO_BUFFER if st["buffer"] is None else st["buffer"]
       raw = W.enc_packet_out(xid, bid, st["inp"],
-                             [("output", st["outp"], 0)], data)
+                             [("output", st["outp"], 0)] * st.get("nact", 1),
+                             data)
       world.send(raw)
       if st["buffer"] is not None:
         # no buffer with that id can exist unless a frame step created it;
